@@ -347,7 +347,13 @@ pub fn fanin_worlds(tier: Tier, mk: impl Fn(usize) -> Op) -> Vec<WorldSpec> {
         let bs: Vec<(u32, u32)> = match (n, q(tier)) {
             (1, true) => vec![(7, 4)],
             (1, false) => vec![(9, 5)],
-            (2, true) => vec![(5, 3), (4, 4)],
+            (2, true) => {
+                if matches!(mk(2), Op::Concat(_)) {
+                    vec![(7, 3), (6, 4)]
+                } else {
+                    vec![(5, 3), (4, 4)]
+                }
+            },
             (2, false) => {
                 if matches!(mk(2), Op::Concat(_)) {
                     vec![(8, 4), (7, 5)]
@@ -355,7 +361,15 @@ pub fn fanin_worlds(tier: Tier, mk: impl Fn(usize) -> Op) -> Vec<WorldSpec> {
                     vec![(7, 3), (6, 4)]
                 }
             },
-            (_, true) => vec![(4, 2)],
+            (_, true) => {
+                if matches!(mk(3), Op::Concat(_)) {
+                    vec![(6, 3)]
+                } else if matches!(mk(3), Op::Combine(_)) {
+                    vec![(5, 2), (4, 3)]
+                } else {
+                    vec![(4, 2)]
+                }
+            },
             (_, false) => {
                 if matches!(mk(3), Op::Concat(_)) {
                     vec![(7, 3), (6, 4)]
@@ -440,9 +454,9 @@ pub fn c14_worlds(tier: Tier) -> Vec<WorldSpec> {
     ops.into_iter()
         .map(|op| {
             let (e, d) = match (&op, q(tier)) {
-                (Op::Concat(3), true) | (Op::Flatten, true) => (8, 4),
+                (Op::Concat(3), true) | (Op::Flatten, true) => (10, 5),
                 (Op::Concat(3), false) | (Op::Flatten, false) => (12, 6),
-                (_, true) => (9, 5),
+                (_, true) => (11, 6),
                 (_, false) => (14, 7),
             };
             let mut s = spec(op, e, d);
@@ -472,7 +486,7 @@ pub fn c15_worlds(tier: Tier) -> Vec<WorldSpec> {
         lists.extend(next.iter().cloned());
         frontier = next;
     }
-    let (e, d) = if q(tier) { (8, 4) } else { (13, 7) };
+    let (e, d) = if q(tier) { (10, 5) } else { (13, 7) };
     let mut v: Vec<WorldSpec> = lists
         .into_iter()
         .map(|xs| {
@@ -493,9 +507,9 @@ pub fn c16_worlds(tier: Tier) -> Vec<WorldSpec> {
     for period in [1u64, 7] {
         for probes in 1..=3u8 {
             let (e, d) = match (probes, q(tier)) {
-                (1, true) => (7, 3),
-                (1, false) => (10, 4),
-                (2, true) => (6, 2),
+                (1, true) => (9, 4),
+                (1, false) => (11, 5),
+                (2, true) => (7, 2),
                 (2, false) => (8, 3),
                 (_, true) => (6, 1),
                 (_, false) => (8, 2),
